@@ -3,7 +3,7 @@
 
 use binrw::{BinReaderExt, BinResult, binread};
 use half::f16;
-use std::io::SeekFrom;
+use std::io::{Read, SeekFrom};
 
 pub(crate) fn read_bool_from<T: std::convert::From<u8> + std::cmp::PartialEq>(x: T) -> bool {
     x == T::from(1u8)
@@ -34,6 +34,24 @@ pub(crate) fn write_string(str: &String) -> Vec<u8> {
 
 pub(crate) fn get_string_len(str: &String) -> usize {
     c_string_bytes(str).len() + 1 // for the nul terminator
+}
+
+/// Reads exactly `count` bytes. Unlike `count` on a `Vec<u8>`, nothing is allocated up front, so a damaged
+/// length field cannot ask for more memory than the stream actually holds.
+#[binrw::parser(reader)]
+pub(crate) fn read_bytes(count: u64) -> BinResult<Vec<u8>> {
+    let mut bytes = Vec::new();
+    reader.by_ref().take(count).read_to_end(&mut bytes)?;
+    if bytes.len() as u64 != count {
+        return Err(binrw::Error::Io(std::io::ErrorKind::UnexpectedEof.into()));
+    }
+    Ok(bytes)
+}
+
+/// Reads a string stored in exactly `count` bytes, see `read_bytes` and `read_string`.
+#[binrw::parser(reader, endian)]
+pub(crate) fn read_sized_string(count: u64) -> BinResult<String> {
+    Ok(read_string(read_bytes(reader, endian, (count,))?))
 }
 
 #[binrw::parser(reader)]
